@@ -75,7 +75,7 @@ def run(ctx):
     maxn = ctx.pick(150, 500)
     seqs = common.random_sequences(ctx.rng, nseq, maxn, 1) + patterning.special_sequences(ctx.rng, ctx.pick(200, 400))
     # the strata of the delta-max search (lopsided charge counts, 12..17 neutrals, neighbouring compositions of one length)
-    seqs += [common.spell(patterning.arrange(c, ctx.rng), ctx.rng) for c in patterning.composition_grid(ctx.rng, ctx.pick(48, 400))]
+    seqs += [common.spell(patterning.arrange(c, ctx.rng), ctx.rng) for c in patterning.composition_grid(ctx.rng, ctx.pick(96, 600))]
     trs = []
     for i, s in enumerate(seqs):
         o, s, how = make_object(lc, s, ctx.rng)
